@@ -3,8 +3,10 @@ import itertools, os, re, subprocess
 from vlib import Case, Stream, BUILD, model_cmd
 
 ID = "C16"
-LEAN_MODULES = ["HgVerif.Props.C16"]
-THEOREMS = [
+LEAN_MODULES = ["HgVerif.Props.C16", "HgVerif.Model.Tie2", "HgVerif.Model.Extracted"]
+USES_EXTRACT = True
+THEOREMS = ["HgVerif.Tie.tie_pqFull",
+    
     "HgVerif.PushQueue.inv_reach",
     "HgVerif.PushQueue.delivered_prefix_of_accepted", "HgVerif.PushQueue.per_producer_order",
     "HgVerif.PushQueue.delivered_once", "HgVerif.PushQueue.pending_le_capacity",
